@@ -1,5 +1,6 @@
 import Driver.Common
 import Driver.C18
+import Driver.Life
 
 def main (args : List String) : IO UInt32 := do
   match args with
@@ -8,6 +9,9 @@ def main (args : List String) : IO UInt32 := do
     let impl ← Driver.readLines implPath
     let t ← match model with
       | "c18" => Driver.C18.run ops impl
+      | "life-c01" => Driver.LifeDrv.run .c01 ops impl
+      | "life-c03" => Driver.LifeDrv.run .c03 ops impl
+      | "life-c04" => Driver.LifeDrv.run .c04 ops impl
       | _ => do IO.eprintln s!"unknown model {model}"; return 2
     return (if t.diffs == 0 && t.oracleFails == 0 then 0 else 1)
   | _ =>
